@@ -319,6 +319,27 @@ def _job(item):
                     _cmp(part, "solve:FPV:from-double", "solve|" + case[5:], exp, zvalue(claripy.backends.z3.convert(leaf), F.FLOAT), F.FLOAT, {"double": F.show(d, F.DOUBLE)})
             except Exception as e:  # noqa: BLE001
                 part.fail(f"fold:FPV:from-double:raised:{type(e).__name__}", case, {"error": str(e)[:160]})
+    # -- shapes the two FP rewrites (fptobv_simplifier, fptofp_simplifier) look for -----------------------------
+    cs0 = V.CL_SORT[S.name]
+    xb, zxb = cx.bvvar(S.width)
+    for a in unary_vals:
+        if F.is_nan(a, S):
+            continue  # the bit pattern of a NaN is unspecified
+        la = F.show(a, S)
+        subs = [(cx.za, znum(a, S, cx.ctx))]
+        sa = a - (1 << S.width) if a >> (S.width - 1) else a
+        fa = V.fpv(a, S)
+        # raw round trips are the identity
+        both("raw(raw(a))", f"fpToFP(fpToIEEEBV(a))|{la}", a, S, lambda: claripy.fpToFP(claripy.fpToIEEEBV(fa), cs0), ("rr",), lambda: claripy.fpToFP(claripy.fpToIEEEBV(cx.a), cs0), subs, {"a": la})
+        both("a.raw_to_bv().raw_to_fp()", f"raw_to_bv.raw_to_fp|{la}", a, S, lambda: fa.raw_to_bv().raw_to_fp(), ("rr2",), lambda: cx.a.raw_to_bv().raw_to_fp(), subs, {"a": la})
+        # the VALUE conversion of the raw bits is not the identity
+        both("val(raw(a))", f"fpToFP({rm},fpToIEEEBV(a))|{la}", F.from_int(sa, S, rm), S, lambda: claripy.fpToFP(crm, claripy.fpToIEEEBV(fa), cs0), ("vr", rm), lambda: claripy.fpToFP(crm, claripy.fpToIEEEBV(cx.a), cs0), subs, {"a": la, "rm": rm})
+        both("a.raw_to_bv().val_to_fp()", f"raw_to_bv.val_to_fp[{rm}]|{la}", F.from_int(sa, S, rm), S, lambda: fa.raw_to_bv().val_to_fp(cs0, True, crm), ("vr2", rm), lambda: cx.a.raw_to_bv().val_to_fp(cs0, True, crm), subs, {"a": la, "rm": rm})
+        both("uval(raw(a))", f"fpToFPUnsigned({rm},fpToIEEEBV(a))|{la}", F.from_int(a, S, rm), S, lambda: claripy.fpToFPUnsigned(crm, claripy.fpToIEEEBV(fa), cs0), ("uvr", rm), lambda: claripy.fpToFPUnsigned(crm, claripy.fpToIEEEBV(cx.a), cs0), subs, {"a": la, "rm": rm})
+        # bits of a reinterpreted bitvector
+        subsb = [(zxb, z3.BitVecVal(a, S.width, cx.ctx))]
+        bva = claripy.BVV(a, S.width)
+        both("raw(raw(bv))", f"fpToIEEEBV(fpToFP(bv))|{la}", a, None, lambda: claripy.fpToIEEEBV(claripy.fpToFP(bva, cs0)), ("brr",), lambda: claripy.fpToIEEEBV(claripy.fpToFP(xb, cs0)), subsb, {"bits": hex(a)})
     # -- BV -> FP ------------------------------------------------------------------------------
     cs = V.CL_SORT[S.name]
     for w in (8, 32, 64):
